@@ -258,6 +258,8 @@ class Engine:
 
     def allowed_exc(self, exc):
         c = self.contract
+        if any(self._handles(h, exc) for h in getattr(self, 'try_stack', [])):
+            return True        # raised inside a try block that handles it
         return exc in c.may_raise or any(e == exc for e, _ in c.raises)
 
     def require(self, st: State, cond, exc, what=''):
@@ -968,6 +970,52 @@ class Engine:
             exc = ast.unparse(e).split('.')[-1]
         self.raise_exc(st, exc, s)
 
+    def stmt_Try(self, s, st):
+        """try / except E [as e] (no finally, no else): exceptions of a handled class raised in the body --
+        explicitly, by a callee's contract, or as a definedness condition -- transfer control to the handler."""
+        if s.finalbody or s.orelse:
+            raise Unsupported('try with else / finally')
+        names = []
+        for h in s.handlers:
+            if h.type is None:
+                names.append(['Exception'])
+            elif isinstance(h.type, ast.Tuple):
+                names.append([ast.unparse(x).split('.')[-1] for x in h.type.elts])
+            else:
+                names.append([ast.unparse(h.type).split('.')[-1]])
+        handled = {n for ns in names for n in ns}
+        self.try_stack = getattr(self, 'try_stack', [])
+        self.try_stack.append(handled)
+        n0 = len(self.exits)
+        try:
+            self.exec_block(s.body, st)
+        finally:
+            self.try_stack.pop()
+        caught = [ex for ex in self.exits[n0:] if self._handles(handled, ex.exc)]
+        self.exits[n0:] = [ex for ex in self.exits[n0:] if not self._handles(handled, ex.exc)]
+        ends = []
+        for h, ns in zip(s.handlers, names):
+            mine = [ex for ex in caught if self._handles(set(ns), ex.exc)]
+            caught = [ex for ex in caught if ex not in mine]
+            if not mine:
+                continue
+            hs = mine[0].state.copy()
+            for ex in mine[1:]:
+                hs = self.merge_states(ex.state.path, ex.state, hs)
+            if h.name:
+                hs.env[h.name] = fresh(KDyn, h.name)
+            self.exec_block(h.body, hs)
+            if not hs.dead:
+                ends.append(hs)
+        for hs in ends:
+            if st.dead:
+                st.assign_from(hs)
+            else:
+                st.assign_from(self.merge_states(hs.path, hs, st))
+
+    def _handles(self, handled, exc):
+        return exc in handled or 'Exception' in handled or 'BaseException' in handled
+
     def stmt_Assert(self, s, st):
         c = self.truthy(self.eval(s.test, st))
         if st.dead:
@@ -1485,6 +1533,11 @@ class Engine:
         fr.breaks, fr.continues = [], []
         fr.loop_prefix, fr.loop_counter = lid + '.', 0
         body.env[idx_name] = IntV(k)
+        # facts about THIS iteration's element, instantiated once from the quantified invariants
+        for cl in getattr(spec, 'pre_hints', []) or []:
+            r = self.eval_inv(cl.node, body, {idx_name: IntV(k)})
+            self.oblige(body, self.truth(r), f'loop{lid}:pre_hint:{cl.label}', kind='loop', text=cl.text, props=cl.props)
+            self.fact(body, self.truth(r))
         self.exec_block(s.body, body)
         for cs in fr.continues:
             body.assign_from(self.merge_states(cs.path, cs, body))
